@@ -59,12 +59,33 @@ def run(ctx):
                        'initialise any method is the only fatal outcome', floor=4)
     ctx.rule('R-C15f', 'a mid-run fallback is honoured by the caller: the result of arming the kernel timer is propagated and a "not armed" '
                        'answer makes the loop wait with the deadline itself (shared with C04 R-C04f)', floor=3)
+    ctx.rule('R-C15g', 'fallback transparency of the raw event transport: what the primary facility guarantees -- a post never blocks, because '
+                       'the eventfd written to is the registered, non-blocking read descriptor -- is established on the fallback path too: on every '
+                       'success path of registration that ends in pipe mode (eventfd missing) the descriptor stored as write end is the write end of '
+                       'the pipe whose read end was registered, and it has been made non-blocking (shared with C09 R-C09b, registration part)', floor=4)
     ctx.section(lambda c: __import__('ivy.rules.c04', fromlist=['x']).keep_armed(c, 'R-C15f'))
+    ctx.section(transparent_post)
     ctx.section(vtable)
     ctx.section(fallbacks)
     ctx.section(eintr)
     ctx.section(enosys)
     ctx.section(exclusion)
+
+
+# --------------------------------------------------------------------------
+# R-C15g: the pipe fallback of the raw event transport establishes what the eventfd guarantees (posting cannot block)
+# --------------------------------------------------------------------------
+
+def transparent_post(ctx):
+    """Borrowed from c09.nonblock (owner: C09), registration part only: every success path of the registration entry
+    point is executed symbolically with its helpers inlined; a path that ends in eventfd mode must leave the
+    registered (hence non-blocking) descriptor itself as write end, a path that ends in pipe mode -- the fallback
+    taken when both eventfd calls are missing -- must leave element 1 of the pipe whose element 0 was registered as
+    write end *and* have made that descriptor non-blocking (iv_fd_set_nonblock, fcntl(F_SETFL, .. | O_NONBLOCK) or
+    pipe2(.., O_NONBLOCK)).  The post-side obligations of R-C09b (only write, retried on EINTR) are not C15's:
+    R-C15c judges the EINTR discipline of that write itself."""
+    c09 = __import__('ivy.rules.c09', fromlist=['x'])
+    c09.nonblock(h15.Borrowed(ctx, {'R-C09b': 'R-C15g'}, keep=lambda inst: inst.startswith('register:')))
 
 
 # --------------------------------------------------------------------------
